@@ -6,7 +6,8 @@
 //! undefined distance 2^(k-1) maps to 2^31) and, with the addend lifted as
 //! n * 2^(32-k) + d (c + d < 2^(32-k)), for addition including the documented
 //! panic threshold.  The lifted case is executed at several offsets on every
-//! comparison site of the real library.
+//! comparison site of the real library; for pairs that are neither equal nor
+//! at the undefined distance also with different offsets on the two sides.
 #[path = "../serial_ref.rs"]
 mod serial_ref;
 
@@ -131,10 +132,25 @@ fn offsets(k: u32, a: u64, b: u64) -> Vec<u32> {
 
 fn cmp_case(k: u32, a: u64, b: u64) -> Value {
     let sh = 32 - k;
+    let s: u64 = 1u64 << sh;
     let mut first: Option<Value> = None;
-    for c in offsets(k, a, b) {
+    // equal offsets on both sides: exact for every k-bit pair
+    let mut offs: Vec<(u32, u32)> = offsets(k, a, b).into_iter().map(|c| (c, c)).collect();
+    // different offsets on the two sides move the 32-bit difference by less
+    // than 2^(32-k) in either direction; that cannot change the result when
+    // the k-bit difference is neither 0 nor 2^(k-1) (the lifted difference
+    // stays strictly inside (0, 2^31) or (2^31, 2^32)).  This reaches the
+    // distances 2^31 - 1 and 2^31 + 1 (and 1, 2^32 - 1) exactly.
+    let dk = (b + (1u64 << k) - a) % (1u64 << k);
+    if dk != 0 && dk != (1u64 << (k - 1)) && s > 1 {
+        let mut r = Rng::new(seed() ^ (a << 22) ^ (b << 6) ^ (k as u64) << 42);
+        offs.push((0, (s - 1) as u32));
+        offs.push(((s - 1) as u32, 0));
+        offs.push((r.below(s) as u32, r.below(s) as u32));
+    }
+    for (c, cb) in offs {
         let aa = ((a << sh) as u32).wrapping_add(c);
-        let bb = ((b << sh) as u32).wrapping_add(c);
+        let bb = ((b << sh) as u32).wrapping_add(cb);
         let (sa, sb) = (Serial(aa), Serial(bb));
         let (ta, tb) = (Timestamp::from(aa), Timestamp::from(bb));
         // Timestamp's comparison operators must agree with its partial_cmp
@@ -162,7 +178,7 @@ fn cmp_case(k: u32, a: u64, b: u64) -> Value {
         match &first {
             None => first = Some(obs),
             Some(f) if *f != obs => {
-                return json!({"offsets_disagree": {"c": c, "a32": aa, "b32": bb,
+                return json!({"offsets_disagree": {"c": c, "cb": cb, "a32": aa, "b32": bb,
                                                    "first": f, "this": obs}});
             }
             _ => {}
